@@ -255,7 +255,7 @@ def step (_ : Unit) (ws : List String) : Unit × String :=
       match parseList parseTriple ch, parseList parseOutcome ou with
       | some chunks, some outs => monitor (cl == "closed=1") chunks outs
       | _, _ => "bad-op"
-  | ["trace2", b, f, r, evs] =>
+  | "trace2" :: b :: f :: r :: evs :: _ =>
       match kv "bytes" b, kv "frames" f, kv "rest" r, parseList parseEv evs with
       | some b, some f, some r, some evs => monitor2 b f r evs
       | _, _, _, _ => "bad-op"
